@@ -194,9 +194,13 @@ def late_binding_sites(fn_node: ast.AST):
         hits = []
 
         def walk(n, eager):
-            if isinstance(n, ast.Call) and isinstance(n.func, ast.Name) and n.func.id in EAGER:
+            if isinstance(n, ast.Call) and ((isinstance(n.func, ast.Name) and n.func.id in EAGER) or
+                                            (isinstance(n.func, ast.Attribute) and n.func.attr in ("join", "fmean", "mean", "median", "extend",
+                                                                                                     "writelines", "update", "fromiter"))):
                 for a in n.args:
-                    walk(a, True)
+                    walk(a, True)                  # consumed on the spot by the call it is handed to
+                if isinstance(n.func, ast.Attribute):
+                    walk(n.func.value, eager)
                 return
             lazy = isinstance(n, (ast.Lambda, ast.GeneratorExp)) or (
                 isinstance(n, ast.Call) and isinstance(n.func, ast.Name) and n.func.id in ("filter", "map", "zip", "enumerate")) or (
